@@ -93,11 +93,13 @@ def _ph(n, what, bounds, **kw):
 _W_RED = "real StoreImpl::do_reduce on a store with scripted reducers/middlewares; symbolic state, action, Dispatch/Keep answers and before_reduce verdicts (4^m assignments in one query); reference model of the hook loop and the reducer chain"
 _W_NOT = "real StoreImpl::do_notify with scripted subscribers/middlewares; symbolic state, action, before_dispatch verdicts; every subscriber once, in order, with exactly (state, action); Done suppresses; counters"
 _W_EFF = "real StoreImpl::do_effect with effects of concrete kinds, middleware 0 removing a concrete subset, symbolic before_effect verdicts/state/action; one pool submission per remaining effect, none inline, each runs once in a pool context, follow-up actions reach this store's queue"
-U_REDUCE_Q = [_ph("u_reduce_r2_m2", _W_RED, "2 reducers, 2 middlewares, no effects"), _ph("u_reduce_r3_m0", _W_RED, "3 reducers"), _ph("u_reduce_r1_m1_task", _W_RED, "1 reducer attaching a Task effect, 1 middleware"), _ph("u_reduce_r1_m2_action_keep", _W_RED, "1 reducer answering Keep with an Action effect, 2 middlewares"), _ph("u_reduce_r1_m0_thunk", _W_RED, "1 reducer attaching a Thunk")]
+U_REDUCE_Q = [_ph("u_reduce_r2_m2", _W_RED, "2 reducers, 2 middlewares, no effects", require_covers=["vetoed the action", "BreakChain skipped", "Keep answer occurred"]), _ph("u_reduce_r3_m0", _W_RED, "3 reducers"), _ph("u_reduce_r1_m1_task", _W_RED, "1 reducer attaching a Task effect, 1 middleware"), _ph("u_reduce_r1_m2_action_keep", _W_RED, "1 reducer answering Keep with an Action effect, 2 middlewares"), _ph("u_reduce_r1_m0_thunk", _W_RED, "1 reducer attaching a Thunk")]
 U_REDUCE_T = [_ph("u_reduce_r3_m3", _W_RED, "3 reducers, 3 middlewares (4^3 verdict assignments)"), _ph("u_reduce_r1_m1", _W_RED, "1 reducer, 1 middleware"), _ph("u_reduce_r2_m0_eff_b", _W_RED, "2 reducers: Keep+Action, Dispatch+Thunk", timeout_s=900), _ph("u_reduce_r2_m1_eff_a", _W_RED, "2 reducers, first attaches a Task, 1 middleware", timeout_s=1200, mem_gb=24)]
-U_NOTIFY_Q = [_ph("u_notify_s2_m2", _W_NOT, "2 subscribers, 2 middlewares"), _ph("u_notify_s3_m0", _W_NOT, "3 subscribers")]
+U_NOTIFY_Q = [_ph("u_notify_s2_m2", _W_NOT, "2 subscribers, 2 middlewares", require_covers=["vetoed the notification"]), _ph("u_notify_s3_m0", _W_NOT, "3 subscribers")]
 U_NOTIFY_T = [_ph("u_notify_s2_m3", _W_NOT, "2 subscribers, 3 middlewares"), _ph("u_notify_s1_m1", _W_NOT, "1 subscriber, 1 middleware")]
 U_EFFECT_Q = [_ph("u_effect_task_thunk_m1", _W_EFF, "Task+Thunk, 1 middleware, nothing removed"), _ph("u_effect_function_action_m1_rm1", _W_EFF, "Function+Action, middleware removes the second"), _ph("u_effect_task_task_m2_rm", _W_EFF, "Task+Task, 2 middlewares, first removes effect 0")]
+U_EFFECT_C = [_ph("u_effect_task_thunk_m1_done", _W_EFF, "Task+Thunk, before_effect verdict fixed to DoneAction"), _ph("u_effect_task_thunk_m1_break", _W_EFF, "verdict fixed to BreakChain"), _ph("u_effect_function_action_m1_err", _W_EFF, "verdict fixed to Err")]
+U_EFFECT_C2 = [_ph("u_effect_task_task_m2_done_cont", _W_EFF, "2 middlewares: Done then Continue, first removes"), _ph("u_effect_thunk_function_m2_cont_done", _W_EFF, "2 middlewares: Continue then Done")]
 U_EFFECT_T = [_ph("u_effect_task_thunk_m1_rm0", _W_EFF, "Task+Thunk, first removed"), _ph("u_effect_action_task_m0", _W_EFF, "Action+Task, no middleware"), _ph("u_effect_thunk_m2_rm", _W_EFF, "Thunk, removed"), _ph("u_effect_function_thunk_m3", _W_EFF, "Function+Thunk, 3 middlewares, second removed"), _ph("u_effect_thunk_function_m2_all", _W_EFF, "Thunk+Function, both removed")]
 U_PHASE_TWIN = [_ph("twin_u_phase", "vacuity twin: deliberately wrong oracles for C01/C03/C07/C11/C12/C18 must each be refuted", "", role="twin")]
 
@@ -105,8 +107,8 @@ CHECKS["C12"] = {
     "bounds": "one action; 1..2 (quick) / 1..3 (thorough) middlewares with every assignment of {Continue,Done,Break,Err} to the hook of the phase under test symbolic in one query; 1..3 reducers; 1..3 subscribers; <=2 effects of concrete kinds; state and action symbolic",
     "outside": "whether a vetoed action still notifies subscribers (left unspecified by the property); more than 3 middlewares; effect removal by a middleware other than the first (its execution depends on symbolic Break verdicts; covered for the first)",
     "assumptions": ["the three phases are driven directly (pub(crate) do_reduce/do_effect/do_notify); that the reducer loop calls them in order with the same state is decided by the loop-level harnesses (C01/C07)"],
-    "quick": U_REDUCE_Q[:3] + U_NOTIFY_Q[:1] + U_EFFECT_Q + U_PHASE_TWIN,
-    "thorough": U_REDUCE_Q[3:] + U_REDUCE_T + U_NOTIFY_Q[1:] + U_NOTIFY_T + U_EFFECT_T,
+    "quick": U_REDUCE_Q[:3] + U_NOTIFY_Q[:1] + U_EFFECT_Q + U_EFFECT_C + U_PHASE_TWIN,
+    "thorough": U_REDUCE_Q[3:] + U_REDUCE_T + U_NOTIFY_Q[1:] + U_NOTIFY_T + U_EFFECT_T + U_EFFECT_C2,
 }
 
 HOOK_COMMITS = ["da8b80e", "8cd617e"]
